@@ -24,7 +24,7 @@ PROPS = ["wrap_ops_eq_bitvec", "wrap_ops_in_range", "shift_ops_eq_bitvec", "divf
          "compare_wrong_on_pinned", "compare_ints_correct", "unwrap_range",
          "varops_are_left_folds", "nary_methods_wrap", "nary_methods_are_left_folds", "nary_mod_not_fold_on_pinned",
          "chained_comparators_are_conjunctions", "chained_comparison_short_circuits", "poly_comparators_are_chains",
-         "ieee_rounding_is_nearest_even", "ieee_ops_correctly_rounded", "ieee_floor_exact_and_ops_exact_when_representable",
+         "ieee_rounding_is_nearest_even", "ieee_rounding_nearest_among_doubles", "ieee_ops_correctly_rounded", "ieee_floor_exact_and_ops_exact_when_representable",
          "num_div_is_floor_of_rounded_quotient", "num_mod_over_ieee", "num_rem_is_exact_fmod", "ieee_special_values",
          "primitive_order_s64_u64_is_by_type", "string_operand_scanned", "string_digits_exact_or_rejected", "string_operands_every_entry",
          "string_operands_handwritten", "bitwise32_range_checks", "bitwise32_eq_bitvec", "num_div_is_floor_of_quotient",
